@@ -46,6 +46,72 @@ var smlTexts = []string{
 	"S1F3 W <L <U2 1 2 3> <BOOLEAN T F t> <F8 0.1 1e-300> <B 0xff 0b101 7> <A \"a\" 0x0A \"b\"> <I8 -9223372036854775808>> .",
 }
 
+// virginPhase: the very first calls into the library made by this process are made by all goroutines at once
+// (lazily built package-level state: compiled patterns, tables, caches).  Nothing of the library has run before.
+func virginPhase(workers int) {
+	type vop struct {
+		name string
+		run  func() string
+	}
+	var vops []vop
+	for i, t := range smlTexts {
+		t := t
+		vops = append(vops, vop{fmt.Sprintf("virgin.sml%d", i), func() string {
+			ms, errs, warns := sml.Parse(t)
+			s := fmt.Sprint(len(ms), errs, warns)
+			for _, m := range ms {
+				s += "|" + m.String()
+			}
+			return s
+		}})
+	}
+	vops = append(vops,
+		vop{"virgin.list", func() string { return fmt.Sprint(ast.NewListNode("x", ast.NewUintNode(1, 7, "v[3]"), "...")) }},
+		vop{"virgin.asciivar", func() string { return fmt.Sprint(ast.NewASCIINodeVariable("name", 0, 5)) }},
+		vop{"virgin.fill", func() string {
+			return fmt.Sprint(ast.NewListNode("a", "...").FillVariables(map[string]interface{}{"...": 2}))
+		}},
+		vop{"virgin.hsms", func() string {
+			m, ok := hsms.Parse([]byte{0, 0, 0, 13, 0, 1, 0x81, 1, 0, 0, 0, 0, 0, 1, 0xa5, 1, 9})
+			if !ok {
+				return "FAIL"
+			}
+			return fmt.Sprintf("%x", m.ToBytes())
+		}},
+		vop{"virgin.hsmsbad", func() string {
+			_, ok := hsms.Parse([]byte{0, 0, 0, 16, 0, 1, 1, 1, 0, 0, 0, 0, 0, 1, 0x91, 4, 0x7f, 0xc0, 0, 0})
+			return fmt.Sprint(ok)
+		}})
+	got := make([][]string, workers)
+	start := make(chan struct{})
+	var wg sync.WaitGroup
+	for w := 0; w < workers; w++ {
+		wg.Add(1)
+		w := w
+		got[w] = make([]string, len(vops))
+		go func() {
+			defer wg.Done()
+			<-start
+			for k := range vops {
+				i := (k + w%3) % len(vops)
+				got[w][i] = safeCall(vops[i].run)
+			}
+		}()
+	}
+	close(start)
+	wg.Wait()
+	for i, op := range vops {
+		exp := safeCall(op.run)
+		for w := range got {
+			if got[w][i] != exp {
+				fmt.Printf("race ops=%d calls=%d mismatches=1\n", len(vops), len(vops)*workers)
+				fmt.Println("MISMATCH", fmt.Sprintf("%s: alone %q, concurrently (first calls of the process) %q", op.name, short(exp), short(got[w][i])))
+				os.Exit(3)
+			}
+		}
+	}
+}
+
 func cmdRace(args []string) {
 	fs := flag.NewFlagSet("race", flag.ExitOnError)
 	seed := fs.Int64("seed", 1, "seed")
@@ -54,6 +120,10 @@ func cmdRace(args []string) {
 	nobj := fs.Int("objects", 40, "histories to build objects from")
 	cold := fs.Bool("cold", false, "no sequential pass first: the very first use of every code path happens concurrently")
 	fs.Parse(args)
+	if *cold {
+		// before anything else in this process has touched the library
+		virginPhase(*workers)
+	}
 	r := rand.New(rand.NewSource(*seed))
 	var ops []raceOp
 	add := func(name string, f func() string) { ops = append(ops, raceOp{name, f}) }
